@@ -339,7 +339,7 @@ func c17Check(d MsgD) *pbt.Violation {
 	return nil
 }
 
-var c17Texts = []string{"", "hello", "a\"b", "§cred§r", "§Kx§Ly", "100%", "%s", "§", "é世", "line\nbreak", "§§a", "tab\tx", "§zkeep"}
+var c17Texts = []string{"", "hello", "§r", "§a", "§K", "§l§o", "a\"b", "§cred§r", "§Kx§Ly", "100%", "%s", "§", "é世", "line\nbreak", "§§a", "tab\tx", "§zkeep"}
 
 func genMsg(t *rapid.T, depth int) MsgD {
 	d := MsgD{Text: rapid.SampledFrom(c17Texts).Draw(t, "text")}
